@@ -52,6 +52,7 @@ def run(ctx, rep):
     e3_gcd.check_poly_division(facts, rep)
     rep.rule('E15', e15_divround.__doc__.strip().split('\n')[0])
     e15_divround.run(facts, rep)
+    e15_divround.check_nearest(facts, rep)
     rep.rule('E20', e20_quadint.__doc__.strip().split('\n')[0])
     e20_quadint.selftest(rep)
     e20_quadint.run(facts, rep, parts=('Q3', 'Q4', 'Q5', 'Q6'))
